@@ -31,6 +31,7 @@ CONSTANTS Dev,         \* enabled deviations
           Names,       \* entry names: set of component sequences (may contain "..", ".")
           Targets,     \* symbolic link targets: <<"rel"|"abs", c1, c2, ...>>
           MaxEntries,
+          Only,        \* {} or a set of archives: only their prefixes are extracted (classification of observed runs)
           \* ---- part A
           Trees,       \* "enum": Init enumerates trees; otherwise unused
           Slots,       \* candidate paths below the abstract root that a tree may populate
@@ -53,6 +54,7 @@ VARIABLES fs, data, nino,   \* file system (FsCore), file contents per inode, ne
 
 vars == <<fs, data, nino, st, n, pats, touched, hist, last>>
 view == <<fs, data, nino, st, n, pats, touched>>
+viewH == <<fs, data, nino, st, n, pats, touched, hist>>
 
 TAbs(t)   == t[1] = "abs"
 TComps(t) == Tail(t)
@@ -165,6 +167,7 @@ Begin ==
 
 Extract(e) ==
   /\ st = "open" /\ n < MaxEntries
+  /\ Only = {} \/ \E a \in Only : IsPrefix(Append(hist, e), a)
   /\ LET r == ExtractEntry(fs, data, nino, e) IN
      /\ fs' = r.f /\ data' = r.d /\ nino' = r.ni
      /\ st' = IF r.ok THEN "open" ELSE "err"
@@ -192,4 +195,200 @@ WellFormed ==
 XEmitEdge ==
   Emit => PrintT("EDGE " \o ToJson([arch |-> hist', a |-> last', st |-> st',
                                      t |-> Nodes(fs', data')]))
+
+(***************************************************************************)
+(* Part A: file transfer and remote browsing under an allowed-path         *)
+(* configuration (stream.go, browse.go, called from agent.go as            *)
+(*   upload:   ValidateUploadMetadata   then WriteUploadedFile             *)
+(*   download: ValidateDownloadMetadata then ReadFileForDownload           *)
+(*   list / stat / chmod / delete: Browse).                                *)
+(* An initial state is a directory tree (every assignment of absent / file *)
+(* / dir / symbolic link to the Slots with at most MaxLinks links and      *)
+(* MaxNodes nodes) below the allowed root /r, a fixed sentinel tree /o     *)
+(* outside it, and an allowed-path configuration; Access(op, req) is one   *)
+(* request.  `touched` records the REAL paths an operation read, listed or *)
+(* modified.                                                               *)
+(***************************************************************************)
+AWorld == (<<"r">> :> DirN) @@ (<<"o">> :> DirN) @@ (<<"o", "a">> :> FileN(1)) @@
+          (<<"o", "b">> :> DirN) @@ (<<"o", "b", "a">> :> FileN(2))
+NSlots == Len(Slots)
+Choices == {<<"absent">>, <<"file">>, <<"dir">>} \cup {<<"link">> \o t : t \in LinkTargets}
+SlotNode(i, c) == IF c[1] = "file" THEN FileN(2 + i)
+                  ELSE IF c[1] = "dir" THEN DirN
+                  ELSE LinkN(c[2] = "abs", SubSeq(c, 3, Len(c)))
+ValidAsg(asg) ==
+  /\ \A i \in 1..NSlots : asg[i][1] # "absent" =>
+        \/ Dirname(Slots[i]) \in DOMAIN AWorld
+        \/ \E j \in 1..NSlots : Slots[j] = Dirname(Slots[i]) /\ asg[j][1] = "dir"
+  /\ Cardinality({i \in 1..NSlots : asg[i][1] = "link"}) <= MaxLinks
+  /\ Cardinality({i \in 1..NSlots : asg[i][1] # "absent"}) <= MaxNodes
+BuildFs(asg) ==
+  LET used == {i \in 1..NSlots : asg[i][1] # "absent"}
+      idx(q) == CHOOSE i \in used : Slots[i] = q IN
+  [q \in DOMAIN AWorld \cup {Slots[i] : i \in used} |->
+      IF q \in DOMAIN AWorld THEN AWorld[q] ELSE SlotNode(idx(q), asg[idx(q)])]
+AData == [i \in 1..(2 + NSlots) |-> ToString(i)]
+
+(* ---- lexical validation: stream.go validatePath / isPathAllowed ---------*)
+ReqComps(r) == Tail(r)
+Wild == <<"rel", "*">>
+Dangerous(r) == \E i \in 1..Len(ReqComps(r)) : ReqComps(r)[i] = "^A"      \* a control character in the path
+MatchP(pc, path) == Len(pc) = Len(path) /\ \A i \in 1..Len(pc) : pc[i] = "*" \/ pc[i] = path[i]
+HasGlob(pc) == \E i \in 1..Len(pc) : pc[i] = "*"
+\* isPathAllowed(path, pattern) for a cleaned absolute path
+PathAllowed(path, pat) ==
+  LET pc == CleanAbs(Tail(pat)) IN
+  IF pat[1] # "abs" THEN FALSE
+  ELSE IF pc # <<>> /\ pc[Len(pc)] = "**" THEN IsPrefix(SubSeq(pc, 1, Len(pc) - 1), path)
+  ELSE IF HasGlob(pc) THEN \E k \in 1..Len(path) : MatchP(pc, SubSeq(path, 1, k))   \* the path or an ancestor
+  ELSE IsPrefix(pc, path)
+LexPath(path, ps) == \E pat \in ps : pat = Wild \/ PathAllowed(path, pat)
+Lex(req, ps) == ~Dangerous(req) /\ req[1] = "abs" /\ LexPath(CleanAbs(ReqComps(req)), ps)
+
+(* ---- repaired code: resolve, then validate the real path ----------------*)
+\* resolveExisting: the real path of p; where p does not exist yet, the real path of its deepest existing ancestor
+\* plus the remaining elements; a dangling symbolic link is refused
+RECURSIVE RE(_, _)
+RE(f, p) ==
+  LET e == EvalSymlinks(f, p) IN
+  IF e.st = "ok" THEN [ok |-> TRUE, p |-> e.p]
+  ELSE IF e.st # "noent" \/ p = <<>> THEN [ok |-> FALSE, p |-> <<>>]
+  ELSE LET d == RE(f, Dirname(p)) IN
+       IF ~d.ok THEN d
+       ELSE LET q == Append(d.p, Base(p)) IN
+            IF Exists(f, q) /\ f[q].k = "link" THEN [ok |-> FALSE, p |-> <<>>] ELSE [ok |-> TRUE, p |-> q]
+\* patternBaseDir, and the pattern with its base directory resolved (an allowed root may itself be a link)
+PatBase(pc) == IF pc # <<>> /\ pc[Len(pc)] = "**" THEN SubSeq(pc, 1, Len(pc) - 1)
+               ELSE IF HasGlob(pc) THEN SubSeq(pc, 1, (CHOOSE i \in 1..Len(pc) : pc[i] = "*" /\ \A j \in 1..(i - 1) : pc[j] # "*") - 1)
+               ELSE pc
+PatResolved(f, pat) ==
+  IF pat[1] # "abs" THEN pat
+  ELSE LET pc == CleanAbs(Tail(pat))
+           b == PatBase(pc)
+           e == EvalSymlinks(f, b) IN
+       IF e.st = "ok" /\ e.p # b THEN <<"abs">> \o e.p \o SubSeq(pc, Len(b) + 1, Len(pc)) ELSE pat
+\* "inside the configured allowed paths, after symbolic links are resolved" (also the oracle of the invariant)
+RealAllowed(f, ps, real) == \E pat \in ps : pat = Wild \/ PathAllowed(real, pat) \/ PathAllowed(real, PatResolved(f, pat))
+Full(f, ps, req) ==
+  /\ Lex(req, ps)
+  /\ LET cp == CleanAbs(ReqComps(req)) r == RE(f, cp) IN r.ok /\ (r.p = cp \/ RealAllowed(f, ps, r.p))
+\* stream.go validateSymlinkTarget (download): only a symbolic link in the final component is resolved and checked
+FinalCheck(f, ps, cp) ==
+  LET l == Lstat(f, cp) IN
+  IF l.st # "ok" \/ Kind(f, l.p) # "link" THEN TRUE
+  ELSE LET e == EvalSymlinks(f, cp) IN e.st = "ok" /\ LexPath(e.p, ps)
+
+Validate(f, ps, op, req) ==
+  IF op = "download"
+    THEN /\ IF "DevFinalComponentOnly" \in Dev THEN Lex(req, ps) ELSE Full(f, ps, req)
+         /\ FinalCheck(f, ps, CleanAbs(ReqComps(req)))     \* kept by the repaired code (purely lexical on the target)
+    ELSE IF "DevLexicalOnly" \in Dev THEN Lex(req, ps) ELSE Full(f, ps, req)
+
+(* ---- the operations on the (lexically cleaned) path, as the OS executes them ---*)
+LinkText(nd) == IF nd.k = "link" THEN <<IF nd.abs THEN "abs" ELSE "rel">> \o nd.t ELSE <<>>
+\* browse.go buildFileEntry / statPath: a link entry reports the type of its target (when it resolves)
+EntryOf(f, q) ==
+  LET nd == f[q] IN
+  [link |-> nd.k = "link", lt |-> LinkText(nd),
+   dir |-> IF nd.k = "link" THEN IsDirAt(f, q) ELSE nd.k = "dir"]
+NoRet == [kind |-> "none"]
+ARes(ok, f, d, ni, ret, extra) == [ok |-> ok, f |-> f, d |-> d, ni |-> ni, ret |-> ret, extra |-> extra]
+
+OpUpload(f, d, ni, cp) ==                   \* WriteUploadedFile: MkdirAll(Dir), OpenFile(O_CREATE|O_TRUNC), copy
+  LET m == MkdirAll(f, Dirname(cp)) IN
+  IF ~m.ok THEN ARes(FALSE, m.f, d, ni, NoRet, {})
+  ELSE LET w == OpenWrite(m.f, d, ni, cp, "n") IN ARes(w.ok, w.f, w.d, w.ni, NoRet, {})
+
+OpDownload(f, d, ni, cp) ==                 \* os.Stat; file: Open + read; directory: TarDirectory (Walk, no follow)
+  LET s == Stat(f, cp) IN
+  IF s.st # "ok" THEN ARes(FALSE, f, d, ni, NoRet, {})
+  ELSE IF Kind(f, s.p) = "file"
+    THEN ARes(TRUE, f, d, ni, [kind |-> "file", c |-> d[f[s.p].i]], {[v |-> "read", p |-> s.p]})
+  ELSE IF Kind(f, Lstat(f, cp).p) = "link"
+    \* quirk: filepath.Walk does not descend into a root that is itself a symbolic link: empty archive
+    THEN ARes(TRUE, f, d, ni, [kind |-> "dir", ents |-> {}], {})
+  ELSE LET sub == Subtree(f, s.p) \ {s.p} IN
+       ARes(TRUE, f, d, ni,
+            [kind |-> "dir",
+             ents |-> {[p |-> SubSeq(q, Len(s.p) + 1, Len(q)), k |-> f[q].k, lt |-> LinkText(f[q]),
+                        c |-> IF f[q].k = "file" THEN d[f[q].i] ELSE ""] : q \in sub}],
+            {[v |-> "list", p |-> s.p]} \cup {[v |-> "list", p |-> q] : q \in {x \in sub : f[x].k = "dir"}}
+              \cup {[v |-> "read", p |-> q] : q \in {x \in sub : f[x].k = "file"}})
+
+OpList(f, d, ni, cp) ==                     \* os.Stat must be a directory; os.ReadDir; one entry per child
+  LET s == Stat(f, cp) IN
+  IF s.st # "ok" \/ Kind(f, s.p) # "dir" THEN ARes(FALSE, f, d, ni, NoRet, {})
+  ELSE ARes(TRUE, f, d, ni,
+            [kind |-> "list", ents |-> {[name |-> Base(q), e |-> EntryOf(f, q)] : q \in Children(f, s.p)}],
+            {[v |-> "list", p |-> s.p]})
+
+OpStat(f, d, ni, cp) ==                     \* statPath: Lstat
+  LET l == Lstat(f, cp) IN
+  IF l.st # "ok" \/ l.p = <<>> THEN ARes(FALSE, f, d, ni, NoRet, {})
+  ELSE ARes(TRUE, f, d, ni, [kind |-> "entry", e |-> EntryOf(f, l.p)], {[v |-> "stat", p |-> l.p]})
+
+OpChmod(f, d, ni, cp) ==                    \* os.Chmod (follows a final link), then statPath
+  LET c == SysChmod(f, cp, "c") IN
+  IF ~c.ok THEN ARes(FALSE, f, d, ni, NoRet, {})
+  ELSE LET l == Lstat(c.f, cp) IN
+       ARes(TRUE, c.f, d, ni, [kind |-> "entry", e |-> EntryOf(c.f, l.p)], {})
+
+OpDelete(f, d, ni, cp, rec) ==              \* statPath; directory: ReadDir, refuse non-empty unless recursive; Remove / RemoveAll
+  LET l == Lstat(f, cp) IN
+  IF l.st # "ok" \/ l.p = <<>> THEN ARes(FALSE, f, d, ni, NoRet, {})
+  ELSE LET isdir == EntryOf(f, l.p).dir
+           rd == Stat(f, cp) IN
+       IF isdir /\ Children(f, rd.p) # {} /\ ~rec THEN ARes(FALSE, f, d, ni, NoRet, {[v |-> "stat", p |-> rd.p]})
+       ELSE LET r == IF rec /\ isdir THEN SysRemoveAll(f, cp) ELSE SysRemove(f, cp) IN
+            ARes(r.ok, r.f, d, ni, NoRet, IF isdir THEN {[v |-> "stat", p |-> rd.p]} ELSE {})
+
+Perform(op, f, d, ni, cp) ==
+  CASE op = "upload"   -> OpUpload(f, d, ni, cp)
+    [] op = "download" -> OpDownload(f, d, ni, cp)
+    [] op = "list"     -> OpList(f, d, ni, cp)
+    [] op = "stat"     -> OpStat(f, d, ni, cp)
+    [] op = "chmod"    -> OpChmod(f, d, ni, cp)
+    [] op = "delete"   -> OpDelete(f, d, ni, cp, FALSE)
+    [] op = "rdelete"  -> OpDelete(f, d, ni, cp, TRUE)
+
+\* real paths whose node appeared, disappeared or changed (kind, link target, mode, content)
+Mod(f, d, f2, d2) ==
+  {[v |-> "mod", p |-> q] : q \in {x \in DOMAIN f \cup DOMAIN f2 :
+      \/ x \notin DOMAIN f \/ x \notin DOMAIN f2
+      \/ f[x] # f2[x]
+      \/ f[x].k = "file" /\ d[f[x].i] # d2[f2[x].i]}}
+
+AInit ==
+  /\ \E asg \in [1..NSlots -> Choices] : ValidAsg(asg) /\ fs = BuildFs(asg)
+  /\ data = AData /\ nino = 3 + NSlots
+  /\ pats \in Patterns
+  /\ st = "run" /\ n = 0 /\ touched = {}
+  /\ hist = <<>> /\ last = [act |-> "Init"]
+
+Access(op, req) ==
+  /\ st = "run" /\ n < MaxOps
+  /\ LET cp == CleanAbs(ReqComps(req))
+         valid == Validate(fs, pats, op, req)
+         r == IF valid THEN Perform(op, fs, data, nino, cp) ELSE ARes(FALSE, fs, data, nino, NoRet, {})
+         tch == r.extra \cup Mod(fs, data, r.f, r.d) IN
+     /\ fs' = r.f /\ data' = r.d /\ nino' = r.ni
+     /\ touched' = touched \cup {[v |-> t.v, p |-> t.p, allowed |-> RealAllowed(fs, pats, t.p)] : t \in tch}
+     /\ last' = [act |-> "Access", op |-> op, req |-> req, valid |-> valid, ok |-> r.ok, ret |-> r.ret]
+  /\ n' = n + 1
+  /\ hist' = hist
+  /\ UNCHANGED <<st, pats>>
+
+ANext == \E op \in Ops, req \in Requests : Access(op, req)
+
+\* C26: whatever is read, listed, written, created, chmod-ed or deleted lies inside the allowed paths after
+\* resolution; with no allowed paths nothing at all is touched (not even stat-ed)
+AccessInv ==
+  /\ \A t \in touched : t.v \in {"mod", "read", "list"} => t.allowed
+  /\ pats = {} => touched = {}
+
+AEmitEdge ==
+  Emit => PrintT("EDGE " \o ToJson([tree |-> Nodes(fs, data), pats |-> pats, a |-> last',
+                                     t |-> IF fs' = fs /\ data' = data THEN {} ELSE Nodes(fs', data'),
+                                     same |-> (fs' = fs /\ data' = data),
+                                     tch |-> touched' \ touched]))
 =============================================================================
